@@ -230,6 +230,13 @@ class CLEngine(Engine):
                 return [["loadmd", []], ["run", 12], mk(pairs[:1]), ["run", 10], [draw(st.sampled_from(["refuse", "refusesync"])), node], ["drop", 0, 0], ["drop", 0, 0], ["drop", 0, 0], ["run", 6], mk(pairs[:1]),
                         ["run", draw(st.integers(0, 4))], ["wait", draw(st.integers(0, 2))]] + tail
             return [["loadmd", []], ["run", 12], mk(pairs), ["ev", "srv", 0], ["run", draw(st.integers(0, 2))]] + tail
+        if kind == "silentboot":
+            # bootstrap hosts that accept the connection but never answer: each must be given up after the timeout and the next one tried
+            return [["hold", b, "metadata"], ["hold", b, "metadata"], ["loadmd", draw(st.sampled_from([[], [ti]]))], ["run", 8], ["wait", 6], ["run", 12], ["wait", 6], ["run", 12], ["wait", 6], ["run", 12]]
+        if kind == "topicgone":
+            # a cached topic is deleted (the next reply lists it erroring, without partitions), later re-created with fewer partitions
+            return [["loadmd", []], ["run", 12], mk([(ti, pi)]), ["run", 10], ["tdel", ti], ["loadmd", [ti]], ["run", 14], mk([(ti, pi)]), ["run", 12], ["tnew", ti, draw(st.integers(1, 2))],
+                    ["loadmd", draw(st.sampled_from([[ti], []]))], ["run", 14], mk([(ti, 0)]), ["run", 14]]
         if kind == "noconn":
             # a warm call (also one that expects no reply) to a known broker whose connection cannot be re-established
             leader = self.config["topics"][ti]["leaders"][pi]
@@ -286,7 +293,7 @@ class CLEngine(Engine):
             ops += ["conn"]
         if w.next_timer() is not None:
             ops += ["timer", "timer", "wait"]
-        ops += ["err", "hold", "down", "up", "leader", "coord", "mderr", "refuse", "refusesync", "decom"]
+        ops += ["err", "hold", "down", "up", "leader", "coord", "mderr", "refuse", "refusesync", "decom", "tdel", "tnew"]
         if self.cluster.held:
             ops += ["release", "release"]
         if w.live_conns():
@@ -336,6 +343,10 @@ class CLEngine(Engine):
             return ["up", draw(st.integers(1, nb)), draw(st.booleans())]
         if op == "leader":
             return ["leader", draw(st.integers(0, len(self.tnames) - 1)), draw(st.integers(0, 3)), draw(st.integers(-1, nb))]
+        if op == "tdel":
+            return ["tdel", draw(st.integers(0, len(self.tnames) - 1))]
+        if op == "tnew":
+            return ["tnew", draw(st.integers(0, len(self.tnames) - 1)), draw(st.integers(1, 4))]
         if op == "coord":
             return ["coord", draw(st.integers(0, 2)), draw(st.integers(1, nb))]
         if op == "mderr":
@@ -431,6 +442,12 @@ class CLEngine(Engine):
         c.pre_closed = self.closed
         c.witnessed0 = self.witnessed
         c.bootstrap0 = list(self.bootstrap)
+        # which brokers the CLIENT regards as connected at this instant (its own test; the network may already have dropped one
+        # without the client having been told, and a connection may be replaced before the call's frame is written)
+        try:
+            c.connected0 = set(n for n, bc in (self.client.clients or {}).items() if bc.connected())
+        except Exception:  # noqa
+            c.connected0 = None
         c.timeout = max(self.timeout, kw.get("min_timeout") or 0)
         self.calls.append(c)
         self._sample_cache()
@@ -607,6 +624,20 @@ class CLEngine(Engine):
                 p = parts[step[2] % len(parts)]
                 p.leader = step[3] if step[3] != 0 else -1
                 self.labels.add("leader-moved")
+        elif op == "tdel":
+            # the topic is deleted: metadata replies now list it with UNKNOWN_TOPIC_OR_PARTITION and no partitions
+            t = self._tname(step[1])
+            if cl.topics.pop(t, None) is not None:
+                self.labels.add("topic-deleted")
+                self.faults_injected += 1
+        elif op == "tnew":
+            # the topic is (re)created with a possibly different number of partitions
+            t = self._tname(step[1])
+            if t in self.tnames:
+                ups = sorted(n for n, b in cl.brokers.items() if b.up and b.listed) or [1]
+                had = len(cl.topics.get(t, {}))
+                cl.add_topic(t, step[2], leaders=[ups[i % len(ups)] for i in range(step[2])], magic=self.config["topics"][self.tnames.index(t)]["magic"])
+                self.labels.add("topic-recreated-with-fewer-partitions" if 0 < step[2] < had else "topic-recreated")
         elif op == "coord":
             cl.coordinators[GROUPS[step[1] % len(GROUPS)]] = step[2]
             self.labels.add("coordinator-moved")
@@ -827,6 +858,11 @@ class CLEngine(Engine):
                 self._check_loadmd(c)
             elif wt.state == "err" and wt.value.check(C.KafkaUnavailableError) and not self.closed:
                 self._check_fallback(c)
+            elif wt.state == "ok" and wt.value is None and not self.closed and not getattr(c, "pre_closed", False):
+                # the load gave up without an answer (an internal cancellation is reported as None): the same obligation applies -
+                # nobody cancelled this call from outside, so every known broker and bootstrap host must have been tried first
+                self.labels.add("metadata-load-gave-up-with-none")
+                self._check_fallback(c)
         elif c.kind == "loadcoord":
             if wt.state == "err" and wt.value.check(C.CoordinatorNotAvailable) and isinstance(wt.value.value.__cause__, C.KafkaUnavailableError) and not getattr(c, "shared_lookup", False) and not self.closed:
                 self._check_fallback(c)
@@ -1043,6 +1079,14 @@ class CLEngine(Engine):
                         self.stale[t] = None
             elif api in ("offset_commit", "offset_fetch", "heartbeat"):
                 g = x["req"]["group"]
+                if call is None:
+                    # a frame that cannot be attributed to one call (heartbeats carry no tag) was routed when some still-unresolved call
+                    # for that group was issued - possibly long before it is written (queued behind a connection attempt)
+                    kinds = {"heartbeat": "hb", "offset_fetch": "ofetch", "offset_commit": "ocommit"}
+                    cands = [c2.evseq0 for c2 in self.calls if c2.kind == kinds[api] and c2.group == g and c2.evseq0 <= x["evseq"]
+                             and (c2.watch is None or c2.watch.state == "pending" or c2.watch.fired[0][0] >= self.world.step_no)]
+                    if cands:
+                        since = min(cands)
                 ok = set([x.get("coord_cache")])
                 hist = self.coord_hist.get(g, [])
                 for i, (seq, node) in enumerate(hist):
@@ -1084,6 +1128,11 @@ class CLEngine(Engine):
         cands = [i for i in cl.metadata_replies if i["req_seq"] > c.seq0 and cl.delivered(i) and i.get("sent_step") is not None]
         want_topics = sorted(c.keys)
         cands = [i for i in cands if sorted(t for _, t, _ in i["metadata"][1]) == want_topics or (not want_topics and i["metadata"][2])]
+        # the reply this call consumed is the answer to ITS request (every load sends its own): an older or newer reply with the same
+        # topics - e.g. a held one released later - must not be mistaken for it
+        own = [i for i in cands if getattr(c, "corr", None) is not None and i.get("corr") == c.corr]
+        if own:
+            cands = own
         if not cands:
             return
         views = {}
@@ -1096,6 +1145,7 @@ class CLEngine(Engine):
                 ok = True
                 self.witnessed = (brokers, tl, full)
                 self.witnessed_seq = i["req_seq"]
+                self.witnessed_deliv = i.get("delivered_evseq", self.evseq)
                 for _, t, _ in tl:
                     self.witnessed_topic[t] = i.get("delivered_evseq", self.evseq)
                 if full and brokers:
@@ -1214,7 +1264,8 @@ class CLEngine(Engine):
             wrote = [x for x in broker_w if x["node"] == n]
             pend = [a for a in w.attempt_log if getattr(a.factory, "node_id", None) == n and getattr(a, "evseq", 0) <= t_boot and (getattr(a, "evseq", 0) >= c.evseq0 or getattr(a, "resolved_evseq", 10 ** 9) >= c.evseq0)]
             if wrote:
-                order.append((wrote[0]["evseq"], wrote[0]["conn"].opened_step < c.step or (wrote[0]["conn"].opened_step == c.step and False), n))
+                was = (n in c.connected0) if getattr(c, "connected0", None) is not None else wrote[0]["conn"].opened_step < c.step
+                order.append((wrote[0]["evseq"], was, n))
                 if wrote[0]["evseq"] > t_boot:
                     self.note("C07.fallback", "C07.fallback/bootstrap-before-brokers", "call #%d: bootstrap hosts were used before known broker %r received the request" % (c.no, n))
             elif not pend:
@@ -1248,15 +1299,17 @@ class CLEngine(Engine):
                 if self.cluster.delivered(i):
                     for n, h, p in i["metadata"][0]:
                         if n == node:
-                            said.add((h, p, i["req_seq"]))
+                            # ordered by DELIVERY: a reply generated earlier but delivered later (held, slow) is the newer one for the client
+                            said.add((h, p, i.get("delivered_evseq", self.evseq)))
             for r in self.cluster.replies:
                 if r["api"] == "find_coordinator" and r.get("coordinator", (1, 0))[0] == 0 and r["coordinator"][1] == node and self.cluster.delivered(r):
-                    said.add((r["coordinator"][2], r["coordinator"][3], r["req_seq"]))
+                    r.setdefault("delivered_evseq", self.evseq)
+                    said.add((r["coordinator"][2], r["coordinator"][3], r["delivered_evseq"]))
             if said and (a.host, a.port) not in set((h, p) for h, p, _ in said):
                 self.note("C08.addresses", "C08.connect-to-unknown-address", "broker client for node %r dialled %s:%s; replies named %r" % (node, a.host, a.port, sorted(said)))
             elif said and self.witnessed is not None:
                 wit = [(h, p) for n, h, p in self.witnessed[0] if n == node]
-                newer = [(h, p) for h, p, s in said if s >= self.witnessed_seq]
+                newer = [(h, p) for h, p, s in said if s >= getattr(self, "witnessed_deliv", 0)]
                 if wit and (a.host, a.port) not in set(wit + newer):
                     self.nt.add("broker-readdressed")
                     self.note("C08.addresses", "C08.connect-to-stale-address", "broker client for node %r dialled %s:%s although the last metadata reply the client consumed says %r" % (node, a.host, a.port, wit))
